@@ -2,12 +2,13 @@
 # Run the quick (or $TIER) command of every property in pvm/ready.txt (or args); summary table.
 cd "$(dirname "$0")/.." || exit 2
 TIER=${TIER:-quick}
-PROPS=${@:-$(cat pvm/ready.txt)}
-mkdir -p /tmp/pvm_runall
+PROPS=${@:-$(seq -f "C%02g" 1 47)}
+OUT=${OUT:-/tmp/pvm_runall}
+mkdir -p $OUT
 for p in $PROPS; do
   t0=$(date +%s)
-  ./check $p --tier $TIER ${EXTRA:-} > /tmp/pvm_runall/$p.log 2>&1
+  ./check $p --tier $TIER ${EXTRA:-} > $OUT/$p.log 2>&1
   rc=$?
   t1=$(date +%s)
-  echo "$p exit=$rc wall=$((t1-t0))s $(grep -E '^(VIOLATION|INCONCLUSIVE|KNOWN-FINDING|#)' /tmp/pvm_runall/$p.log | head -2 | tr '\n' ' ' | cut -c1-200)"
+  echo "$p exit=$rc wall=$((t1-t0))s $(grep -E '^(VIOLATION|INCONCLUSIVE|KNOWN-FINDING|#)' $OUT/$p.log | head -2 | tr '\n' ' ' | cut -c1-200)"
 done
